@@ -24,9 +24,11 @@ static GridSpec parseSpec(const char *s){
   if (t.size() > 10) g.alpha = atof(t[10].c_str());
   if (t.size() > 11) g.beta = atof(t[11].c_str());
   if (g.aniso == 2 && g.type.find("curved") != std::string::npos){ for (int j=0;j<g.dims;j++) g.aw.push_back(2); for (int j=0;j<g.dims;j++) g.aw.push_back(-3); }   // linear + curved < 0: the selection is not provably a lower set (general selection path)
+  else if (g.aniso == 4 && g.type.find("curved") != std::string::npos){ for (int j=0;j<g.dims;j++) g.aw.push_back(1); for (int j=0;j<g.dims;j++) g.aw.push_back(j == 0 ? -3 : 0); }   // strongly negative curved weight in the first direction only: (1,k) is cheaper than (0,k), the raw selection is not a lower set
   else if (g.aniso == 3){ for (int j=0;j<g.dims;j++) g.aw.push_back(j == 0 ? 3 : 1); if (g.type.find("curved") != std::string::npos) for (int j=0;j<g.dims;j++) g.aw.push_back(0); }   // a shallow first direction
   else if (g.aniso){ for (int j=0;j<g.dims;j++) g.aw.push_back(1 + (j % 2)); if (g.type.find("curved") != std::string::npos) for (int j=0;j<g.dims;j++) g.aw.push_back(j % 2); }
   if (g.limits == 1){ for (int j=0;j<g.dims;j++) g.ll.push_back(j == 0 ? 1 : -1); }
+  if (g.limits == 3){ for (int j=0;j<g.dims;j++) g.ll.push_back(j == 0 ? 8 : 4); }   // loose limits: they select the code path, they do not cut the set
   if (g.limits == 2){ for (int j=0;j<g.dims;j++) g.ll.push_back(j == 0 ? 2 : 1); }
   if (g.transform){ for (int j=0;j<g.dims;j++){ g.ta.push_back(-0.5 + 0.25 * j); g.tb.push_back(1.5 + 0.5 * j); } }
   return g;
@@ -43,6 +45,10 @@ static void makeGrid(TasmanianSparseGrid &grid, const GridSpec &g){
 }
 // the "model": a fresh symbolic value per (grid point, output), remembered by coordinates so that the same
 // point always carries the same symbols; `generation` lets a reload supply different values
+// magnitude of the model values (argument "vs=<x>" of a harness): the library is linear in the values, so every value-proportional
+// obligation scales with it; a tiny magnitude exposes absolute thresholds hidden in linear algorithms
+static double g_vscale = 1.0;
+static void parseVScale(int argc, char **argv){ for (int i=1;i<argc;i++) if (strncmp(argv[i], "vs=", 3) == 0) g_vscale = atof(argv[i] + 3); }
 struct SymModel {
   int outputs; int next_id; double lo, hi; bool symbolic; bool zeroed = false;   // zeroed: every known value is the constant zero (after mergeRefinement)
   std::map<std::vector<double>, std::vector<double>> table; // coordinates -> values (shadows travel with the doubles)
@@ -54,7 +60,7 @@ struct SymModel {
     if (it != table.end()) return it->second;
     std::vector<double> v(outputs);
     first_id[x] = next_id; zeroed = false;
-    for (int k=0;k<outputs;k++){ double d = dflt(x, k); if (d < lo) d = lo; if (d > hi) d = hi; v[k] = symbolic ? fpsym_symbolic(d, next_id, lo, hi) : d; next_id++; }
+    for (int k=0;k<outputs;k++){ double d = dflt(x, k); if (d < lo) d = lo; if (d > hi) d = hi; v[k] = symbolic ? fpsym_symbolic(d * g_vscale, next_id, lo * g_vscale, hi * g_vscale) : d * g_vscale; next_id++; }
     return table.emplace(x, v).first->second;
   }
   void renew(){ table.clear(); } // next lookups create fresh symbols (overwriting reload)
